@@ -53,3 +53,43 @@ def obligations():
     obs.append(Ob("MI() is KLGEMINI(ovo=False)", PROVED if isinstance(mi, G.KLGEMINI) and mi.ovo is False else REFUTED,
                   "enumeration", "P", {"replayed": True}, fn="gemclus.gemini._fdivergences.MI.__init__"))
     return obs
+
+
+def frame_obligations():
+    """FX frame of the GEMINI objects (all classes, all paths): evaluate / compute_affinity / __call__ write no attribute of
+    the object and read only options fixed at construction -- the score and the affinity are functions of their arguments and
+    of the constructor options, never of earlier calls (a cached kernel statistic would make the score depend on history)."""
+    import inspect
+    from engine import fx
+    from gemclus.gemini import MMDGEMINI, WassersteinGEMINI, KLGEMINI, TVGEMINI, HellingerGEMINI, ChiSquareGEMINI, MI
+    SELF = ("var", "self")
+    obs = []
+    for cls in (MMDGEMINI, WassersteinGEMINI, KLGEMINI, TVGEMINI, HellingerGEMINI, ChiSquareGEMINI, MI):
+        hp = set(inspect.signature(cls.__init__).parameters) - {"self"}
+        init = fx.Interp(cls, inline_filter=lambda o, m: True, max_depth=6).run_method("__init__")
+        # attributes set at construction: the 'options' (no method below may write them, so they keep their construction-time value)
+        opts = {e[2] for st in init for e in st.events if e[0] == "store" and e[1] == SELF}
+        runs = {}
+        for meth in sorted(n for n in dir(cls) if callable(getattr(cls, n, None)) and n != "__init__"
+                           and (getattr(getattr(cls, n), "__module__", "") or "").startswith("gemclus") and inspect.isfunction(getattr(cls, n))):
+            try:
+                runs[meth] = fx.Interp(cls, inline_filter=lambda o, m: True, max_depth=6).run_method(meth)
+            except fx.FxUnsupported as e:
+                runs[meth] = e
+        # attributes written by any method after construction
+        later = {e[2] for m_, sts in runs.items() if not isinstance(sts, Exception) for st in sts for e in st.events if e[0] == "store" and e[1] == SELF}
+        for meth in ("evaluate", "compute_affinity", "__call__"):
+            fn = f"gemclus.gemini.{cls.__name__}.{meth}"
+            sts = runs.get(meth)
+            if sts is None or isinstance(sts, Exception):
+                obs.append(Ob(f"{cls.__name__}.{meth}: frame analysable", UNDECIDED, "fx", "P", {"why": str(sts)}, fn=fn))
+                continue
+            reads = {e[2] for st in sts for e in st.events if e[0] == "read" and e[1] == SELF}
+            writes = {e[2] for st in sts for e in st.events if e[0] == "store" and e[1] == SELF}
+            muts = [fx.show(e[2])[:60] for st in sts for e in st.events if e[0] == "mutate" and isinstance(e[1], tuple) and e[1][:2] == ("attr", SELF)]
+            state = sorted(a for a in reads if (a not in opts or a in later) and not callable(getattr(cls, a, None)))
+            ok = bool(sts) and not writes and not muts and not state
+            obs.append(Ob(f"{cls.__name__}.{meth}: stateless (writes nothing on the object, reads only constructor options)", PROVED if ok else REFUTED,
+                          "fx-frame", "P", {"reads": sorted(reads), "writes": sorted(writes), "state read": state, "mutations": muts[:3],
+                                            "written after construction by some method": sorted(later)}, fn=fn))
+    return obs
